@@ -91,24 +91,23 @@ theorem saveState_atoms (sim : Sim) (s : State) : (saveState sim s).atoms = s.at
   unfold saveState
   cases sim.ens <;> simp [ctxSave]
 
-/-- after `revert_state` the calculator is synchronised with the restored atoms (canonical / Hamiltonian driver) -/
-theorem revertCalc_fresh_pos (c : CalcS) (a s1 : AtomsS) (hpos : PosOnly a s1) (hf : Fresh c s1) :
-    Fresh (revertCalc .canonical c (some (energy a)) a) a := by
-  obtain ⟨_, sn, hsn, hch⟩ := hf
+/-- the snapshot of `s1` with the positions (and optionally the cell) of `a` agrees with `a` on everything ASE compares,
+    whenever `a` and `s1` carry the same atoms (same `aux` columns; same cell unless the cell is overwritten too) -/
+theorem snapshot_resync (sn a s1 : AtomsS) (newcell : V3) (hnc : newcell = a.cell)
+    (haux1 : s1.rows.map (·.aux) = a.rows.map (·.aux))
+    (hch : changes (some sn) s1 = (false, false)) :
+    changes (some { sn with rows := setPositions sn.rows (positions a.rows), cell := newcell }) a = (false, false) := by
   have hu := unchanged_spec sn s1 (by rw [hch])
-  refine ⟨rfl, { sn with rows := setPositions sn.rows (positions a.rows) }, by simp [revertCalc, hsn], ?_⟩
-  -- the snapshot with the restored positions agrees with `a` on everything compared
   have hlen : sn.rows.length = a.rows.length := by
     have h1 := congrArg List.length hu.1
-    have h2 := congrArg List.length hpos.2.2
+    have h2 := congrArg List.length haux1
     simp [positions] at h1 h2; omega
   have hch' := hch
   unfold changes at hch' ⊢
   simp only [] at hch' ⊢
   split at hch'
   · simp at hch'
-  · rename_i hl
-    simp only [Prod.mk.injEq, Bool.or_eq_false_iff, decide_eq_false_iff_not, ne_eq, Decidable.not_not] at hch'
+  · simp only [Prod.mk.injEq, Bool.or_eq_false_iff, decide_eq_false_iff_not, ne_eq, Decidable.not_not] at hch'
     obtain ⟨⟨⟨⟨_, hnum⟩, hcell⟩, haux⟩, _⟩ := hch'
     have hlen' : (setPositions sn.rows (positions a.rows)).length = a.rows.length := by
       simp [setPositions, positions, hlen]
@@ -128,15 +127,39 @@ theorem revertCalc_fresh_pos (c : CalcS) (a s1 : AtomsS) (hpos : PosOnly a s1) (
       · have := List.getElem?_eq_none_iff.mp h2
         have := (List.getElem?_eq_some_iff.mp h1).1
         omega
-    have haux1 : s1.rows.map (·.aux) = a.rows.map (·.aux) := by
-      have := congrArg (List.map Prod.snd) hpos.2.2
-      simpa [strip, Function.comp_def] using this
     have hnumS : ∀ cl fx, numbersOf { rows := setPositions sn.rows (positions a.rows), cell := cl, fixed := fx }
         = numbersOf a := by
       intro cl fx
       have e1 : ∀ x : AtomsS, numbersOf x = (x.rows.map (·.aux)).map (fun l => l.headD 0) := by
         intro x; simp [numbersOf, List.map_map, Function.comp_def]
       rw [e1, e1]; simp only []; rw [hauxS, haux, haux1]
-    simp [hlen', hpos', hnumS, hcell, hpos.1, hauxS, haux, haux1]
+    simp [hlen', hpos', hnumS, hnc, hauxS, haux, haux1]
+
+/-- after `revert_state` the calculator is synchronised with the restored atoms (canonical / Hamiltonian driver):
+    the trial configuration differs from the restored one in positions (and momenta, which ASE does not compare) only -/
+theorem revertCalc_fresh_aux (ens : Ensemble) (he : ens = .canonical ∨ ens = .hamiltonian) (c : CalcS) (a s1 : AtomsS)
+    (haux : AuxOnly a s1) (hf : Fresh c s1) :
+    Fresh (revertCalc ens c (some (energy a)) a) a := by
+  obtain ⟨_, sn, hsn, hch⟩ := hf
+  have hu := unchanged_spec sn s1 (by rw [hch])
+  have hcell : sn.cell = a.cell := by rw [hu.2.1, haux.1]
+  have := snapshot_resync sn a s1 sn.cell hcell haux.2.2 hch
+  rcases he with rfl | rfl
+  · exact ⟨rfl, _, by simp [revertCalc, hsn], this⟩
+  · exact ⟨rfl, _, by simp [revertCalc, hsn], this⟩
+
+theorem revertCalc_fresh_pos (c : CalcS) (a s1 : AtomsS) (hpos : PosOnly a s1) (hf : Fresh c s1) :
+    Fresh (revertCalc .canonical c (some (energy a)) a) a :=
+  revertCalc_fresh_aux .canonical (Or.inl rfl) c a s1 hpos.auxOnly hf
+
+/-- isobaric / isotension driver: positions **and cell** of the calculator's snapshot are overwritten -/
+theorem revertCalc_fresh_strip (c : CalcS) (a s1 : AtomsS) (hs : StripOnly a s1) (hf : Fresh c s1) :
+    Fresh (revertCalc .isobaric c (some (energy a)) a) a := by
+  obtain ⟨_, sn, hsn, hch⟩ := hf
+  have haux1 : s1.rows.map (·.aux) = a.rows.map (·.aux) := by
+    have := congrArg (List.map Prod.snd) hs.2
+    simpa [strip, Function.comp_def] using this
+  have := snapshot_resync sn a s1 a.cell rfl haux1 hch
+  exact ⟨rfl, _, by simp [revertCalc, hsn], this⟩
 
 end MC
